@@ -583,6 +583,13 @@ pub fn check_state(p: &Props, ops: &[Op], info: &PlanInfo, obs: &Obs, last_only:
             out.push(v("C04", "dispatch-panicked", format!("sequential dispatch script panicked: {}", e)));
         } else if let Some(runs) = &obs.runs {
             for n in &info.nodes {
+                if info.rejected.contains(&n.id) {
+                    // a (rightly) rejected registration never happened
+                    if runs[n.id] != 0 {
+                        out.push(v("C04", "rejected-system-ran", format!("system {} was rejected by the builder but ran {} times", n.id, runs[n.id])));
+                    }
+                    continue;
+                }
                 let exp = expected_runs(info, n.id, 4, 3);
                 if runs[n.id] != exp {
                     let sig = if runs[n.id] < exp { "system-skipped" } else { "system-ran-too-often" };
